@@ -68,7 +68,7 @@ class C08(Prop):
     vacuity = {"quick": ["probe:iter_event_inside_block", "probe:iter_finalised_after_block_left",
                          "probe:raise_through_block", "probe:nested_depth_ge_2", "probe:advance_delivered_inside_block",
                          "probe:mode_rule_seen", "probe:mode_query_seen", "probe:with_query_block",
-                         "probe:iterator_over_rule_or_infer_query", "fault_fired:F3_callback_raise",
+                         "probe:iterator_over_rule_or_infer_query", "probe:helper_called_inside_block", "fault_fired:F3_callback_raise",
                          "fault_fired:F4_intrinsic_abort"]}
 
     # ------------------------------------------------------------------ generation
@@ -126,8 +126,12 @@ class C08(Prop):
             elif r < 0.9 and slots:
                 s = rng.choice(slots)
                 ops.append([rng.choice(["close", "drop", "park"]), s])
-            elif r < 0.94:
+            elif r < 0.93:
                 ops.append(["collect"])
+            elif r < 0.97:
+                # library helpers that open a block internally (let, kwargs-form construction) must restore the
+                # ambient mode of the block they are called in
+                ops.append(["build", rng.choice(["let", "kw", "let_nodom", "entity"])])
             elif the_ids:
                 ops.append(["the", rng.choice(the_ids)])
             else:
@@ -263,6 +267,12 @@ class C08(Prop):
                     elif kind == "collect":
                         run.collect()
                         outcome = "collected"
+                    elif kind == "build":
+                        sim.count("probe:helper_called_inside_block" if frames else "probe:helper_called_outside_block")
+                        try:
+                            outcome = scratch.build(op[1])
+                        except Exception as e:
+                            outcome = "raised:" + type(e).__name__
                     elif kind == "the":
                         r = run.the_eval(op[1])
                         outcome = (r[0], r[1] if r[0] == "exc" else None)
@@ -362,6 +372,22 @@ class _Scratch:
         self.dom = [self.obj]
         with symbolic_mode():
             self.var = W.Item(From(self.dom))
+
+    def build(self, what):
+        from entity_query_language import let, an, entity
+        if what == "let":
+            v = let(W.Item, self.dom)
+        elif what == "let_nodom":
+            v = let(W.Gadget)
+        elif what == "kw":
+            if not in_symbolic_mode():
+                return "skipped"
+            v = W.Item(From(self.dom), a=W.V(1))
+        else:
+            if not in_symbolic_mode():
+                return "skipped"
+            v = an(entity(let(W.Item, self.dom)))
+        return type(v).__name__
 
     def behaviour(self, exp):
         """Returns a description of the first probe that disagrees with the expected mode, else None."""
